@@ -211,9 +211,12 @@ func NewRun(prop, tier string) *Run {
 	r := &Run{Prop: prop, Tier: tier, Build: "plain", Start: time.Now(), Workers: runtime.NumCPU(),
 		known: map[string]int{}, Extra: map[string]interface{}{}}
 	fmt.Sscan(os.Getenv("VERIF_SEED"), &r.Seed)
-	d := 150 * time.Second
+	// the deadline is a safety net, not a budget: quick runs take well under a minute on the unchanged tree. It is
+	// generous because a changed tree can make scenarios much slower (more inputs accepted, audit-widened alphabets)
+	// and a scenario skipped for lack of time could be the one that finds the violation.
+	d := 10 * time.Minute
 	if tier == "thorough" {
-		d = 25 * time.Minute
+		d = 45 * time.Minute
 	}
 	if s := os.Getenv("VERIF_DEADLINE_S"); s != "" {
 		var n int
@@ -260,6 +263,17 @@ func (r *Run) HarnessError(format string, a ...interface{}) {
 // body must be deterministic per shard. It returns false from a shard to signal "cap hit".
 func (r *Run) Scenario(name string, bounds interface{}, nShards int, body func(shard int, st *Stats) bool) *Stats {
 	t0 := time.Now()
+	// once a violation has been found and the run has been going for two minutes, the remaining scenarios are not
+	// started: the verdict is already decided and the report should not be delayed further
+	r.mu.Lock()
+	decided := len(r.viol) > 0 && time.Since(r.Start) > 2*time.Minute
+	r.mu.Unlock()
+	if decided {
+		r.mu.Lock()
+		r.scen = append(r.scen, ScenarioResult{Name: name, Classes: map[string]int64{}, Exhaustive: false, Bounds: bounds, Note: "not started: a violation had already been found"})
+		r.mu.Unlock()
+		return NewStats()
+	}
 	total := NewStats()
 	exhaustive := true
 	var next int64 = -1
